@@ -55,8 +55,8 @@ def plan(tier, seed):
 def generate(job):
     rs = Stream(job["seed"], "C03")
     rm, ro = rs.child("model"), rs.child("ops")
-    kind = rm.weighted([("S3", 4), ("V3", 2), ("H3", 1), ("C4", 3)])
-    card = cards.make_card(rm, kind)
+    kind = rm.weighted([("S3", 4), ("V3", 2), ("H3", 1), ("C4", 3), ("C4s", 1), ("API", 3)])
+    card = cards.make_card(rm, kind) if kind != "API" else {"_kind": "API", "api": cards.api_spec(rm)}
     spec = {
         "card": card,
         "n": rm.choice([7, 11, 16]),
@@ -93,12 +93,13 @@ class Session:
         import tensorflow as tf
 
         self.np, self.tf, self.spec, self.log = np, tf, spec, log
-        self.config = cards.build(spec["card"])
+        self.is_api = spec["card"].get("_kind") == "API"
+        self.config = cards.ApiModel(spec["card"]["api"]) if self.is_api else cards.build(spec["card"])
         self.amp = self.config.get_amplitude()
         self.dg = self.amp.decay_group
         ps = Stream(spec["param_seed"], "params")
         cards.randomize_params(self.amp, ps, 0.7)
-        self.D = cards.seeded_phsp(self.config, spec["n"], spec["data_seed"])
+        self.D = self.config.phsp(spec["n"], spec["data_seed"]) if self.is_api else cards.seeded_phsp(self.config, spec["n"], spec["data_seed"])
         n = spec["n"]
         g = np.random.Generator(np.random.PCG64(spec["data_seed"] + 7))
         self.w = np.ones(n)
@@ -106,7 +107,7 @@ class Session:
             self.w = 0.2 + 2.0 * g.random(n)
             self.D["weight"] = self.w.copy() if spec["weights"] == "numpy" else tf.constant(self.w)
         # ---- reference instance: same card, same parameters, unit total couplings
-        ref = cards.build(spec["card"])
+        ref = cards.ApiModel(spec["card"]["api"]) if self.is_api else cards.build(spec["card"])
         ramp = ref.get_amplitude()
         p = {k: float(v) for k, v in self.amp.get_params().items()}
         ramp.set_params(p)
@@ -120,7 +121,7 @@ class Session:
             for nme in names:
                 unit[nme] = 1.0 if nme.endswith("r") else 0.0
         ramp.set_params(unit)
-        rD = cards.seeded_phsp(ref, spec["n"], spec["data_seed"])
+        rD = ref.phsp(spec["n"], spec["data_seed"]) if self.is_api else cards.seeded_phsp(ref, spec["n"], spec["data_seed"])
         self.A = []
         rdg = ramp.decay_group
         for k in range(self.nchains):
@@ -269,6 +270,8 @@ class Session:
                 self.close(np.array(w), self.ref_density([i, j]), "pair-weight", "partial_weight_interference")
         elif k in FF:
             if inner or sorted(self.S) != list(range(self.nchains)):
+                return
+            if self.is_api and k == "config_ff":
                 return
             self.do_ff(op)
         else:
